@@ -94,7 +94,8 @@ static bool read_file(const std::string &path, std::string &out) {
 static int cmd_gen(const std::map<std::string, std::string> &a) {
     uint64_t seed = strtoull(a.count("seed") ? a.at("seed").c_str() : "1", nullptr, 10);
     uint64_t run = strtoull(a.count("run") ? a.at("run").c_str() : "0", nullptr, 10);
-    Plan p = generate_plan(seed, run, gen_options(a));
+    if (a.count("sweep-total")) { printf("%llu\n", (unsigned long long)sweep_total(gen_options(a).profile, seed)); return 0; }
+    Plan p = a.count("sweep") ? generate_sweep_plan(seed, run, gen_options(a)) : generate_plan(seed, run, gen_options(a));
     fputs(p.to_jsonl().c_str(), stdout);
     return 0;
 }
@@ -145,10 +146,12 @@ struct Agg {
     }
 };
 
-static bool is_cold_index(uint64_t seed, uint64_t run) { return mix64(seed ^ 0xC01DULL, run) % 40 == 0; }
+static bool g_no_cold = false;
+static bool is_cold_index(uint64_t seed, uint64_t run) { return !g_no_cold && mix64(seed ^ 0xC01DULL, run) % 40 == 0; }
 
+static bool g_sweep = false;
 static void run_one(uint64_t seed, uint64_t run, const GenOptions &go, bool cold_process, FILE *out, Agg &agg, bool per_run) {
-    Plan p = generate_plan(seed, run, go);
+    Plan p = g_sweep ? generate_sweep_plan(seed, run, go) : generate_plan(seed, run, go);
     if (!cold_process) p.cold = false;
     else if (!p.cold) { /* the index was pre-selected but the plan has no codec-1 session: an ordinary run in a fresh process */ }
     ExecOptions eo; eo.profile = go.profile; eo.check_indep = go.profile == "C12";
@@ -160,8 +163,8 @@ static void run_one(uint64_t seed, uint64_t run, const GenOptions &go, bool cold
     for (auto &kv : r.counts) agg.counts[kv.first] += kv.second;
     for (auto &kv : p.gen) agg.counts["net:" + kv.first] += kv.second;
     if (p.cold) agg.counts["cold_start_runs"]++;
-    for (uint64_t x : r.fps) agg.fps.insert(x);
-    agg.inter.insert(r.interleave_hash);
+    if (g_sweep) { if (!r.fps.empty()) agg.counts["sweep_nontrivial_runs"]++; }     // distinct by construction: one run per (configuration, subset)
+    else { for (uint64_t x : r.fps) agg.fps.insert(x); agg.inter.insert(r.interleave_hash); }
     if (!r.viol.empty() || per_run) {
         std::string js = result_json(p, r, false);
         fputs(js.c_str(), out); fputc('\n', out); fflush(out);
@@ -181,6 +184,7 @@ static int cmd_work(const std::map<std::string, std::string> &a) {
     double budget = a.count("seconds") ? atof(a.at("seconds").c_str()) : 0;     // optional wall-clock cap for this worker
     GenOptions go = gen_options(a);
     bool per_run = a.count("per-run") > 0;
+    g_sweep = a.count("sweep") > 0; g_no_cold = g_sweep;
     FILE *out = fopen(a.count("out") ? a.at("out").c_str() : "/dev/stdout", "a");
     if (!out) return 2;
     std::string asan_pfx = a.count("asan-log") ? a.at("asan-log") : "";
@@ -217,7 +221,7 @@ static int cmd_work(const std::map<std::string, std::string> &a) {
                 progress[0] = i;
                 if (is_cold_index(seed, i)) continue;
                 run_one(seed, i, go, false, out, agg, per_run);
-                if (agg.runs >= 200) agg.flush(out, i);
+                if (agg.runs >= (g_sweep ? 20000u : 200u)) agg.flush(out, i);
                 if (budget > 0 && elapsed() > budget) { progress[1] = 1; i++; break; }
             }
             progress[0] = i;
